@@ -213,6 +213,11 @@ fn main() {
     if want("goldens") {
         let env = vh::golden::build_env();
         for g in &vh::golden::goldens() {
+            // the Drift goldens run against the harness's own stand-in for the Drift program (venue.rs), which
+            // program-test does not have: they are outside the conformance set (DESIGN, section G)
+            if g.name.starts_with("drift_") {
+                continue;
+            }
             let pre = (g.prep)(&env);
             for (variant, signer) in [("golden", vh::golden::role_key(&env, g.role)), ("refusal(stranger signs)", vh::act::stranger())] {
                 if variant != "golden" && matches!(g.role, vh::golden::Role::Anyone) {
